@@ -242,7 +242,22 @@ fn staged(w: &mut Work, b: &Baseline, fmt: &str, cfg: &Cfg, case: &Value) -> Res
         return Err(fail("native-crash", "compile", fmt, format!("{} fml compile died on signal {}", what, s), case));
     }
     match (&b.image, co.status.success()) {
-        (None, false) => return Ok(()), // run does not get past compilation either
+        (None, false) => {
+            // no image in-process either (the compiler or the serializer refuses).  That is only
+            // consistent if `fml run` did not get anywhere with the program: a program that runs
+            // must also have a staged form
+            if b.run.status.success() || !b.run.stdout.is_empty() {
+                return Err(fail(
+                    "stage-refuses",
+                    "compile",
+                    fmt,
+                    format!("{} `fml compile` refuses ({}) a program that `fml run` executes (status {:?}, {} bytes of output)", what, co.err_str().chars().take(200).collect::<String>(), b.run.status, b.run.stdout.len()),
+                    case,
+                )
+                .with("reason", "runs-but-cannot-be-staged"));
+            }
+            return Ok(());
+        }
         (None, true) => {
             return Err(fail("stage-accepts", "compile", fmt, format!("{} `fml compile` accepts a program that `fml run` refuses to compile", what), case));
         }
@@ -474,6 +489,23 @@ fn long_text_programs() -> Vec<(String, String)> {
         out.push((format!("{}-characters-then-newline", tail), format!("print(\"{}\n\"); print(\"tail\\n\")", t)));
         let u: String = (0..tail / 2).map(|i| ['ž', 'é', '日', 'a'][i % 4]).collect();
         out.push((format!("newline-then-{}-non-ascii-characters", tail / 2), format!("print(\"x\n{}\\n\")", u)));
+    }
+    // degenerate programs: nothing at all, only definitions (an entry method without a single
+    // instruction), a definition last, a lone literal, only layout
+    for (name, src) in [
+        ("empty-source", ""),
+        ("only-blanks-and-comments", "  \n// nothing\n/* at all */\n"),
+        ("functions-only", "function inc(x) -> x + 1; function greet() -> print(\"hello\\n\")"),
+        ("one-function-only", "function f() -> 1"),
+        ("function-definition-last", "print(\"first\\n\"); function late() -> 2"),
+        ("call-before-definition-last", "print(\"~\\n\", late()); function late() -> 2"),
+        ("lone-literal", "42"),
+        ("lone-null", "null"),
+        ("lone-empty-block", "begin end"),
+        ("lone-object", "object begin end"),
+        ("trailing-semicolon", "print(\"x\\n\");"),
+    ] {
+        out.push((name.to_string(), src.to_string()));
     }
     // many short statements: 3000 prints (the AST texts are several hundred KB)
     let many: Vec<String> = (0..3000).map(|i| format!("print(\"line ~\\n\", {})", i)).collect();
